@@ -196,6 +196,15 @@ class Report:
         self.obligations = 0
         self.discharged = 0
         self.extra = {}
+        self.errors = []
+
+    def attempt(self, fn, *a, **kw):
+        """run one rule; an unreadable anchor of that rule must not hide what the other rules found"""
+        try:
+            return fn(*a, **kw)
+        except AnalysisError as e:
+            self.errors.append(str(e))
+            return None
 
     def instance(self, rule, construct, where, ok=True, note=""):
         self.instances.append({"rule": rule, "construct": construct, "where": where, "verdict": "ok" if ok else "VIOLATED", "note": note})
@@ -207,7 +216,10 @@ class Report:
         self.counts[name] = self.counts.get(name, 0) + n
 
     def violation(self, rule, construct, where, message, key, detail=None):
-        self.findings.append(Finding(self.prop, rule, construct, where, message, key, detail))
+        f = Finding(self.prop, rule, construct, where, message, key, detail)
+        if any(g.ident() == f.ident() for g in self.findings):
+            return
+        self.findings.append(f)
 
     def sample(self, s):
         if len(self.samples) < 12:
@@ -273,9 +285,14 @@ def finish(rep, model, quiet=False):
           "coverage": cov, "assumptions": rep.assumptions, "wall_s": round(wall, 3), "violations": len(viol)}
     with open(os.path.join(evdir, rep.prop + ".json"), "w") as fh:
         json.dump(ev, fh, indent=1, default=str)
+    cov["analysis_errors"] = rep.errors
+    with open(os.path.join(evdir, rep.prop + ".json"), "w") as fh:
+        json.dump(ev, fh, indent=1, default=str)
+    for e in rep.errors:
+        out.append("ANALYSIS-ERROR property=%s %s" % (rep.prop, e))
     if not quiet:
         print("%s [%s]: %d rule instances, %d/%d obligations discharged, %d known finding(s), %d violation(s), %.2fs"
               % (rep.prop, rep.tier, len(rep.instances), rep.discharged, rep.obligations, len(kf), len(viol), wall))
         for line in out:
             print(line)
-    return 1 if viol else 0
+    return 1 if viol else (2 if rep.errors else 0)
